@@ -347,6 +347,21 @@ def corruptions(g, key, base, rng, quick):
             x = copy.deepcopy(base)
             x[n] = {"MD5": "zz"}
             out.append(("%s:bad_hash_value" % n, x))
+            # values of another JSON kind that look like a digest once printed: a number with exactly as many digits as the digest has characters, and others
+            for alg, ndig in (("MD5", 32), ("SHA-1", 40), ("SHA-256", 64), ("SHA-512", 128)):
+                if alg in d.get("spec_hash_names", []):
+                    for nm, val in (("digits_as_number", int("1" * ndig)), ("true", True), ("list", ["a" * ndig]), ("null", None), ("object", {"v": "a" * ndig}), ("float", float("1" * 15))):
+                        x = copy.deepcopy(base)
+                        x[n] = {alg: val}
+                        out.append(("%s:hash_value_%s:%s" % (n, nm, alg), x))
+        if d["kind"] in ("extensions", "embedded", "embeddedobject", "list") and n in base:
+            for path in hash_dict_paths(base[n]):
+                x = copy.deepcopy(base)
+                h = x[n]
+                for st in path[:-1]:
+                    h = h[st]
+                h[path[-1]] = {"MD5": int("1" * 32)}
+                out.append(("%s.%s:hash_value_digits_as_number" % (n, ".".join(map(str, path))), x))
     if any(d["name"] == "granular_markings" for d in t["properties"]):
         names = [n for n in base if n != "granular_markings"]
         lists = [n for n in names if isinstance(base[n], list) and base[n]]
@@ -449,7 +464,7 @@ def emit_lines(chk, quick, junk=True):
                 lines.append(emit_one(v, key, "valid_base", base, "parse"))
                 cs = corruptions(g, key, base, rng, quick)
                 if quick:
-                    always = [c for c in cs if ":ref_object" in c[0] or ":ref_text_braces" in c[0] or c[0].startswith(("constraint:", "satisfied_by_falsy:"))]
+                    always = [c for c in cs if ":ref_object" in c[0] or ":ref_text_braces" in c[0] or c[0].startswith(("constraint:", "satisfied_by_falsy:")) or "hash_value_digits_as_number" in c[0]]
                     cs = rng.sample(cs, min(len(cs), 28)) + always
                 for how, d in cs:
                     entry = rng.choice(["parse", "parse", "constructor", "parse_dict"]) if quick else None
@@ -473,8 +488,56 @@ def emit_lines(chk, quick, junk=True):
                     ln = emit_one(v, "objects:marking-definition", "tlp_level:" + how, d, en)
                     if ln is not None:
                         lines.append(ln)
+    lines += object_ref_lines()
     if junk:
         lines += junk_lines(chk, quick)
+    return lines
+
+
+def object_ref_lines():
+    """references given as library objects (the constructors accept an object wherever an identifier is expected): the object may have been built under other rules than the
+    object that refers to it -- the other spec version, or interoperability mode -- and its identifier must still be checked by the rules of the referring object"""
+    import stix2
+    lines = []
+    nil = "00000000-0000-0000-0000-000000000000"
+    for v in VERSIONS:
+        m, o = (stix2.v20, stix2.v21) if v == "2.0" else (stix2.v21, stix2.v20)
+        donors = []
+        try:
+            donors.append(("other_version_identity_uuid1", o.Identity(id="identity--11111111-1111-1111-8111-111111111111", name="n", identity_class="individual")))
+        except Exception:  # noqa
+            pass
+        try:
+            donors.append(("v21_file_uuid5", stix2.v21.File(name="f")))
+        except Exception:  # noqa
+            pass
+        for modname, mod in (("same_version", m), ("other_version", o)):
+            try:
+                donors.append(("interoperability_identity_nil_uuid:" + modname, mod.Identity(id="identity--" + nil, name="n", identity_class="individual", interoperability=True)))
+                donors.append(("interoperability_malware_nil_uuid:" + modname, mod.Malware(id="malware--" + nil, name="n", interoperability=True,
+                                                                                            **({"is_family": False} if mod is stix2.v21 else {"labels": ["x"]}))))
+            except Exception:  # noqa
+                pass
+        for dname, donor in donors:
+            for how, build in (
+                    ("created_by_ref", lambda: m.Campaign(name="c", created_by_ref=donor)),
+                    ("object_refs", lambda: m.Report(name="r", published="2020-01-01T00:00:00Z", object_refs=[donor], **({"report_types": ["x"]} if v == "2.1" else {"labels": ["threat-report"]}))),
+                    ("sighting_of_ref", lambda: m.Sighting(sighting_of_ref=donor)),
+                    ("relationship_target", lambda: m.Relationship(source_ref="campaign--11111111-1111-4111-8111-111111111111", relationship_type="uses", target_ref=donor)),
+                    ("relationship_positional", lambda: m.Relationship(donor, "uses", "malware--11111111-1111-4111-8111-111111111111"))):
+                key = {"created_by_ref": "objects:campaign", "object_refs": "objects:report", "sighting_of_ref": "objects:sighting"}.get(how, "objects:relationship")
+                line = {"kind": "emit", "v": v, "key": key, "ctx": "object_valued_reference:%s:%s" % (how, dname), "entry": "constructor", "strict": True, "ok": False, "family": True,
+                        "exc": "none", "doc": {"key": key, "props": []}, "input": {"generated": "object_valued_reference:%s:%s" % (how, dname)}}
+                try:
+                    out = out_json(build())
+                    line["ok"] = True
+                    line["doc"] = lex.doc(out, v, key)
+                    line["output"] = out
+                except Exception as e:  # noqa
+                    line["exc"] = type(e).__name__
+                    line["family"] = in_family(e)
+                    line["msg"] = message_of(e, line)[:160]
+                lines.append(line)
     return lines
 
 
@@ -869,6 +932,48 @@ def reuse_and_custom_objects(chk):
             out.append(("2.1", "objects:identity", "registered_extension:" + how, stix2.v21.Identity(name="n", **kw)))
         except Exception as e:  # noqa
             out.append(("2.1", "objects:identity", "registered_extension:" + how, e))
+    # the extension given as an instance of its registered class (not a dictionary), with top-level values that still need cleaning; and the objects the library derives
+    # from an object that carries a registered toplevel extension (they are built from extension instances, too)
+    import copy as _copy
+    derived = []
+    try:
+        derived.append(("ext_A_as_instance", stix2.v21.Identity(name="n", rank="9", extensions={a: c["a"]()}, allow_custom=True)))
+        derived.append(("ext_B_as_instance", stix2.v21.Identity(name="n", weight="3", shade="red", extensions={b: c["b"]()}, allow_custom=True)))
+        derived.append(("ext_A_as_instance_strict", stix2.v21.Identity(name="n", rank=9, extensions={a: c["a"]()})))
+    except Exception as e:  # noqa
+        derived.append(("ext_as_instance", e))
+    try:
+        base = stix2.v21.Identity(name="n", rank=1, extensions={a: tl})
+        for how, f in (("new_version", lambda: base.new_version(name="m")), ("deepcopy", lambda: _copy.deepcopy(base)),
+                       ("add_markings", lambda: base.add_markings(stix2.v21.TLP_GREEN)), ("revoke", lambda: base.revoke()),
+                       ("bundle_member", lambda: stix2.v21.Bundle(base)), ("bundle_member_permissive", lambda: stix2.v21.Bundle(base, allow_custom=True))):
+            try:
+                derived.append(("ext_A_then_" + how, f()))
+            except Exception as e:  # noqa
+                derived.append(("ext_A_then_" + how, e))
+    except Exception as e:  # noqa
+        derived.append(("ext_A_base", e))
+    for how, o in derived:
+        out.append(("2.1", "objects:bundle" if "bundle_member" in how else "objects:identity", "registered_extension:" + how, o))
+    # registered custom types that bring an extension of their own (extension_name=...), with and without a custom property next to it
+    from stix2.properties import StringProperty
+    if "ordx" not in _CUSTOM:
+        @stix2.v21.CustomObject("x-verif-ord", [("name", StringProperty(required=True))], extension_name="extension-definition--99999999-1111-4111-8111-111111111111")
+        class XOrd(object):
+            pass
+
+        @stix2.v21.CustomObservable("x-verif-ord-obs", [("value", StringProperty(required=True))], ["value"], extension_name="extension-definition--99999999-2222-4222-8222-222222222222")
+        class XOrdObs(object):
+            pass
+        _CUSTOM.update(ordx=XOrd, ordo=XOrdObs)
+    for how, f in (("own_extension", lambda: _CUSTOM["ordx"](name="n")), ("own_extension+custom_property", lambda: _CUSTOM["ordx"](name="n", x_custom=1, allow_custom=True)),
+                   ("own_extension+custom_properties_keyword", lambda: _CUSTOM["ordx"](name="n", custom_properties={"x_a": [1], "a_x": 2})),
+                   ("observable_own_extension+custom_property", lambda: _CUSTOM["ordo"](value="v", x_custom={"k": 1}, allow_custom=True))):
+        try:
+            o = f()
+            out.append(("2.1", ("observables:" if "observable" in how else "objects:") + o["type"], "registered_custom_type:" + how, o))
+        except Exception as e:  # noqa
+            out.append(("2.1", "objects:x-verif-ord", "registered_custom_type:" + how, e))
     return out
 
 
@@ -999,6 +1104,7 @@ def injections(g, key, base, rng):
 
 def custom_lines(chk, quick):
     import stix2
+    import stix2.versioning
     rng = chk.rng
     lines = []
     for v in VERSIONS:
@@ -1061,6 +1167,30 @@ def custom_lines(chk, quick):
                     for place, d in (("toplevel_member_of_absent_extension:B", only_a_plus_b), ("toplevel_member_of_absent_extension:A", only_b_plus_a)):
                         for mode in ("strict", "permissive"):
                             lines.append(custom_one(v, "objects:identity", place + ":after_object_with_both", d, mode, False))
+            # objects that reach a constructor with a registered toplevel extension given as an *instance* of its class (explicitly, or because the library derived them from
+            # another object): nothing custom about them -- the flag and the strict re-parse must agree
+            import copy as _copy
+            base_tl = stix2.v21.Identity(name="n", rank=1, extensions={A: dict(tl)})
+            for place, build in (("extension_instance_given", lambda: stix2.v21.Identity(name="n", rank=2, extensions={A: _CUSTOM["a"]()}, allow_custom=True)),
+                                 ("new_version_of_object_with_toplevel_extension", lambda: stix2.versioning.new_version(base_tl, name="m", allow_custom=True)),
+                                 ("deepcopy_of_object_with_toplevel_extension", lambda: _copy.deepcopy(base_tl)),
+                                 ("add_markings_on_object_with_toplevel_extension", lambda: base_tl.add_markings(stix2.v21.TLP_GREEN)),
+                                 ("bundle_member_with_toplevel_extension", lambda: stix2.v21.Bundle(base_tl, allow_custom=True)),
+                                 ("observable_with_toplevel_extension_in_bundle", lambda: stix2.v21.Bundle(stix2.v21.File(name="f", rank=3, extensions={A: dict(tl)}), allow_custom=True))):
+                line = {"kind": "custom", "v": v, "key": "objects:identity", "place": place, "mode": "permissive", "refused": False, "has_custom": False, "strict_reparse_refused": False,
+                        "exc": "none", "input": {"generated": place}}
+                try:
+                    obj = build()
+                    line["has_custom"] = bool(obj.has_custom)
+                    try:
+                        stix2.parse(obj.serialize(), allow_custom=False, version=v)
+                    except Exception as e:  # noqa
+                        line["strict_reparse_refused"] = True
+                        line["reparse_exc"] = type(e).__name__
+                except Exception as e:  # noqa
+                    line["refused"] = True
+                    line["exc"] = type(e).__name__
+                lines.append(line)
             # an unregistered type carrying an extension-definition extension: only an extension that defines a new object type (new-sdo / new-sco / new-sro) is documented to
             # let the dictionary through; every other extension type leaves it an unregistered type
             for et in ("property-extension", "toplevel-property-extension", "", None, "new-thing"):
